@@ -175,6 +175,8 @@ def run_case(ctx, k, rng):
             if len(A):
                 vp = float(f(A, A[rng.permutation(len(A))]))
                 ctx.check("reorder=>0", abs(vp) <= tol(A, A), got=vp)
+                vs = float(f(A, A))                  # the very same object on both sides
+                ctx.check("the same array as both arguments => 0", abs(vs) <= tol(A, A), got=vs)
         elif sub == 1:
             C = gen.diagram(rng, int(rng.integers(0, 20)), None, scale) + (A[0, 0] if len(A) else 0.0) * float(rng.integers(0, 2))
             ctx.set_payload({"A": A, "B": B, "C": C, "M": M})
